@@ -35,6 +35,15 @@ META = dict(
 PREFIXES = [None, "u", "U", "dev_1", "Dev_1", "a_5", "7", " 7", "urn:x:A7", "urn:x:a7", ""]   # differ by case / space too
 
 
+# [second, number of requests] ...
+BURSTS = [[[100, 70000], [101, 5]], [[101, 70000], [102, 5]], [[100, 3], [40, 140000], [101, 70000]],
+          [[7, 65536], [8, 65537], [9, 2]], [[1700000001, 66000], [1700000000, 66000], [1700000002, 66000]]]
+
+
+def expand(bursts):
+    return [sec for sec, n in bursts for _ in range(n)]
+
+
 def impl_ids(urn, clock):
     import bobocep.cep.gen.event_id as m
     it = iter(clock)
@@ -130,6 +139,22 @@ def run(ctx, res):
     res.extra["oracle_sequences"] = n_or
     res.extra["exhaustive_scope"] = "all clock step sequences over {-2..2}: length<=%d model-vs-impl, length<=%d oracle" % (corr_len, oracle_len)
     res.exhaustive = True
+
+    # "any number of requests within the same second": long bursts on one second (counter beyond 2^16 / 2^17), with
+    # steps forwards and backwards between them; seconds of both parities
+    n_burst = 0
+    for urn in (None, "u"):
+        for bursts in BURSTS:
+            ids = impl_ids(urn, expand(bursts))
+            n_burst += len(ids)
+            res.note_case(("burst", urn, tuple(map(tuple, bursts))), True)
+            if len(set(ids)) != len(ids):
+                seen = {}
+                dup = next((i, seen[x]) for i, x in enumerate(ids) if x in seen or seen.setdefault(x, i) != i)
+                res.failures.append(dict(signature="duplicate-id", what="generate() returned the same identifier twice "
+                                         "(requests #%d and #%d: %r)" % (dup[1], dup[0], ids[dup[0]]),
+                                         case=dict(urn=urn, bursts=bursts), detail=None))
+    res.extra["burst_ids"] = n_burst
 
     # different prefixes never collide (oracle): same clock, all prefixes
     for seq in list(sequences(5))[:400]:
@@ -295,6 +320,12 @@ def replay(obj):
         bad = any(len(set(x for u in r for x in r[u][k])) != sum(len(r[u][k]) for u in r) for k in ("run_ids", "event_ids"))
         print("identifiers of different devices coincide" if bad else "identifiers of different devices are distinct")
         return 1 if bad else 0
+    if "bursts" in case:
+        ids = impl_ids(case.get("urn"), expand(case["bursts"]))
+        dup = len(set(ids)) != len(ids)
+        print("%d requests, %d distinct identifiers" % (len(ids), len(set(ids))))
+        print("duplicate identifiers" if dup else "identifiers pairwise distinct")
+        return 1 if dup else 0
     if "clock" not in case:
         print(obj)
         return 0
